@@ -388,69 +388,89 @@ func Apply(h *Handle, op *Op) (string, *ClockNote, error) {
 	return ErrClass(err), note, nil
 }
 
-// CreateImage creates an image on be according to co and fills in co.EffID / co.EffTime.
+// CreateImage creates an image on be according to co, passing the options in co.Order, and
+// records the clock reading and random ID the library used (inputs of the model).
 func CreateImage(be Backend, co *COpts) (*Handle, string, *ClockNote, error) {
+	if len(co.Order) == 0 {
+		co.Order = []string{"det", "launch", "id", "time", "cap", "dis"}
+	}
 	var opts []sif.CreateOpt
-	// order: id/time options are applied in the order given; deterministic resets both
-	if co.IDKind == 2 || co.TimeKind == 2 {
-		opts = append(opts, sif.OptCreateDeterministic())
-	}
-	if co.LaunchSet {
-		opts = append(opts, sif.OptCreateWithLaunchScript(co.Launch))
-	}
-	if co.IDKind == 1 {
-		opts = append(opts, sif.OptCreateWithID(uuidString(co.ID)))
-	}
-	if co.TimeKind == 1 {
-		opts = append(opts, sif.OptCreateWithTime(time.Unix(co.Time, 0)))
-	}
-	if co.CapSet {
-		opts = append(opts, sif.OptCreateWithDescriptorCapacity(co.Cap))
-	}
-	var dis []sif.DescriptorInput
-	for _, d := range co.DIs {
-		di, err := BuildDI(d)
-		if err != nil {
-			return nil, "", nil, fmt.Errorf("descriptor input: %w", err)
+	for _, k := range co.Order {
+		switch k {
+		case "det":
+			if co.IDKind == 2 || co.TimeKind == 2 {
+				opts = append(opts, sif.OptCreateDeterministic())
+			}
+		case "launch":
+			if co.LaunchSet {
+				opts = append(opts, sif.OptCreateWithLaunchScript(co.Launch))
+			}
+		case "id":
+			if co.IDKind == 1 {
+				opts = append(opts, sif.OptCreateWithID(uuidString(co.ID)))
+			}
+		case "time":
+			if co.TimeKind == 1 {
+				opts = append(opts, sif.OptCreateWithTime(time.Unix(co.Time, 0)))
+			}
+		case "cap":
+			if co.CapSet {
+				opts = append(opts, sif.OptCreateWithDescriptorCapacity(co.Cap))
+			}
+		case "dis":
+			var dis []sif.DescriptorInput
+			for _, d := range co.DIs {
+				di, err := BuildDI(d)
+				if err != nil {
+					return nil, "", nil, fmt.Errorf("descriptor input: %w", err)
+				}
+				dis = append(dis, di)
+			}
+			if len(dis) > 0 {
+				opts = append(opts, sif.OptCreateWithDescriptors(dis...))
+			}
 		}
-		dis = append(dis, di)
-	}
-	if len(dis) > 0 {
-		opts = append(opts, sif.OptCreateWithDescriptors(dis...))
 	}
 	opts = append(opts, sif.OptCreateWithCloseOnUnload(false))
 
 	t0 := time.Now().Unix()
 	f, err := sif.CreateContainer(be, opts...)
 	t1 := time.Now().Unix()
-
-	// what the implementation used for ID and time
-	var note *ClockNote
-	switch {
-	case co.IDKind == 1:
-		co.EffID = co.ID
-	case co.IDKind == 2 || co.TimeKind == 2:
-		co.EffID = [16]byte{}
-	}
-	switch {
-	case co.TimeKind == 1:
-		co.EffTime = co.Time
-	case co.IDKind == 2 || co.TimeKind == 2:
-		co.EffTime = ZeroTime
-	default:
-		co.EffTime = t0
-	}
+	co.ObsNow = t0
 	if err != nil {
-		// without a handle, recover a random ID / default time from the bytes if a header was written
 		return nil, ErrClass(err), nil, nil
 	}
+	// The library drew the random ID and read the clock itself: whatever it stored that is not
+	// explained by the options becomes the model's input, after a plausibility check.
+	var note *ClockNote
 	hb, _, _ := sif.VerifRaw(f)
-	if co.IDKind == 0 && co.TimeKind != 2 {
-		copy(co.EffID[:], hb[48:64])
+	idFromOpts, timeFromOpts := false, false
+	for _, k := range co.Order {
+		switch k {
+		case "det":
+			if co.IDKind == 2 || co.TimeKind == 2 {
+				idFromOpts, timeFromOpts = true, true
+			}
+		case "id":
+			if co.IDKind == 1 {
+				idFromOpts = true
+			}
+		case "time":
+			if co.TimeKind == 1 {
+				timeFromOpts = true
+			}
+		}
 	}
-	if co.TimeKind == 0 && co.IDKind != 2 {
-		used := int64(binary.LittleEndian.Uint64(hb[64:72]))
-		co.EffTime = used
+	copy(co.EffID[:], hb[48:64])
+	co.EffTime = int64(binary.LittleEndian.Uint64(hb[64:72]))
+	if !idFromOpts {
+		copy(co.ObsRnd[:], hb[48:64])
+	}
+	if !timeFromOpts {
+		used := co.EffTime
+		if used >= t0 && used <= t1 {
+			co.ObsNow = used
+		}
 		note = &ClockNote{Lo: t0, Used: used, Hi: t1, OK: used >= t0 && used <= t1}
 	}
 	return &Handle{F: f, BE: be}, "Ok", note, nil
